@@ -357,7 +357,7 @@ def run_property(mod, tier, seed, replay=None):
             ksel = [(i, c) for i, c in enumerate(sel) if c.k]
             mans = {}
             if ksel and os.path.exists(driver_bin()):
-                drv = Server([driver_bin()], default_timeout=60.0)
+                drv = Server([driver_bin()], default_timeout=240.0)   # watchdog of the MODEL driver only (deterministic; slow under load is not a disagreement)
                 out = drv.ask([c.line for _, c in ksel])
                 for (i, c), a in zip(ksel, out):
                     mans[i] = a
@@ -371,7 +371,7 @@ def run_property(mod, tier, seed, replay=None):
                         for one in (fu if isinstance(fu, list) else [fu]):
                             fus.append((c, one[0], one[1]))
                 if fus:
-                    drv = Server([driver_bin()], default_timeout=120.0)
+                    drv = Server([driver_bin()], default_timeout=900.0)  # a 4 MB lock-order history takes ~105 s on an idle machine
                     out = drv.ask([l for _, l, _ in fus])
                     # expected answer None: the follow-up request is also answered by the harness
                     need = [i for i, (_, _, exp) in enumerate(fus) if exp is None]
